@@ -2104,8 +2104,9 @@ async def execute_single(runner, es, params, on_error):
             elif isinstance(e.error, BytesIO):
                 error_message = e.error.read().decode("utf-8")
             else:
-                # if the 'error' is empty, we get back str(None)
-                error_message = e.error
+                # if the 'error' is empty, we get back str(None). Error responses that do not originate from Elasticsearch
+                # (e.g. from a gateway) may carry any JSON value, not only a string.
+                error_message = str(e.error)
 
         if isinstance(e.info, bytes):
             error_info = e.info.decode("utf-8")
